@@ -3,15 +3,17 @@
 (* cursor, and the accumulators for contract violations and model drift.    *)
 (* A trace file is a concatenation of scenarios, each starting with a       *)
 (* "Reset" event; the orchestrator appends one final "End" event.           *)
-EXTENDS Integers, Sequences, TLC, Json
+EXTENDS Integers, Sequences, FiniteSets, TLC, Json
 
 Log == ndJsonDeserialize("trace.ndjson")
 
-MaxReports == 400
+MaxReports == 4000
+MaxPerClause == 40
 
-(* append a report unless the accumulator is full *)
+(* append a report unless the accumulator is full.  The cap is PER CLAUSE: a flood of reports of one clause must not   *)
+(* crowd out the first report of another (each check reads only the clauses of its own property).                     *)
 Report(acc, scn, line, clause) ==
-  IF Len(acc) >= MaxReports THEN acc
+  IF Len(acc) >= MaxReports \/ Cardinality({i \in 1..Len(acc) : acc[i].clause = clause}) >= MaxPerClause THEN acc
   ELSE Append(acc, [scn |-> scn, line |-> line, clause |-> clause])
 
 (* Checks is a sequence of <<condition, clause>>; returns acc plus one report per false condition *)
